@@ -197,12 +197,18 @@ def _order_agreement(ctx, op, src, pat_desc, pattern_idx, sample_cu):
     pd = {k: list(v) for k, v in src.pattern_descriptors.items()}
     pred = RDMs(np.arange(1, nc * (nc - 1) // 2 + 1, dtype=float).reshape(1, -1) if nc > 1 else np.zeros((1, 0)),
                 pattern_descriptors=pd)
-    ps = pred.subsample_pattern(pat_desc, pattern_idx)
-    pcu = normlist(ps.pattern_descriptors['uid'])
-    if pcu != sample_cu:
-        ctx.violation('resample_ref.clause5', f'{op}:order',
-                      f'{op}: prediction resampled with the returned pattern indices has conditions {pcu}, '
-                      f'the sample has {sample_cu}')
+    preds = [pred]
+    if pat_desc != 'index':
+        # a model built on its own (conditions in the data's order, but with its own positional 'index'): the usual case
+        preds.append(RDMs(np.array(pred.dissimilarities, copy=True), pattern_descriptors={k: list(v) for k, v in pd.items() if k != 'index'}))
+    for which, pr in zip(('', ' (model object with its own index)'), preds):
+        ps = pr.subsample_pattern(pat_desc, pattern_idx)
+        pcu = normlist(ps.pattern_descriptors['uid'])
+        if pcu != sample_cu:
+            ctx.violation('resample_ref.clause5', f'{op}:order',
+                          f'{op}: prediction{which} resampled with the returned pattern indices has conditions {pcu}, '
+                          f'the sample has {sample_cu}')
+            return
 
 
 def execute(plan, ctx):
